@@ -268,7 +268,23 @@ def run_one(ctx, rng, case, kind, findings, pending):
         for other in others:
             real.run_gen_params(other["files"], other["graph"], other["mods"], name="other")
             observe_stages(other["files"], other["graph"], other["mods"])
-        if rng.random() < 0.5:
+        mode = rng.choice(["plain", "shared-inpath", "same-paths"])
+        if mode == "same-paths":
+            # edit-and-rerun: an earlier call read OTHER content from the very same paths (force-field files and
+            # sequence file), then the files are rewritten and the call under test runs
+            with tempfile.TemporaryDirectory() as tmpdir:
+                for other in others:
+                    real.run_gen_params_in_dir(tmpdir, other["files"], other["graph"], other["mods"])
+                # same file layout, other content: the case's own files with the definitions of another case
+                decoy = c01.make_case(rng)
+                decoy_files = [(ext, [c for e2, ch in decoy["files"] if e2 == ext for c in ch] or chunks)
+                               for ext, chunks in case["files"]]
+                real.run_gen_params_in_dir(tmpdir, decoy_files, decoy["graph"], decoy["mods"])
+                res = real.run_gen_params_in_dir(tmpdir, case["files"], case["graph"], case["mods"])
+            again_e2e = observe_text(res["text"]) if res["ok"] else dict(ok=False, err=res.get("err"))
+            again_text = res.get("text")
+            record["label"] = "history:same-paths"
+        elif mode == "shared-inpath":
             # a caller that keeps ONE list of input files and asks for a library in an earlier call only
             with tempfile.TemporaryDirectory() as tmpdir:
                 shared = real.write_files(case["files"], tmpdir)
